@@ -7,6 +7,21 @@ namespace Buf
 def fresh (cfg : Cfg) (a : Attempt) : BW :=
   respond a { buffer := newWriterOnce cfg.maxResp cfg.memResp } cfg.canHijack
 
+/-- the late part of the handler: headers and `WriteHeader` after the writes -/
+def late (a : Attempt) (b : BW) : BW :=
+  let b4 : BW := { b with header := a.lateHdr.foldl (fun h e => Header.add h e.1 e.2) b.header }
+  match a.lateStatus with
+  | some c => b4.writeHeader c
+  | none => b4
+
+theorem late_spec (a : Attempt) (b : BW) :
+    (late a b).buffer = b.buffer ∧ (late a b).writeError = b.writeError ∧ (late a b).written = b.written ∧
+    (late a b).hijacked = b.hijacked ∧ (late a b).panicked = b.panicked ∧
+    (late a b).header = a.lateHdr.foldl (fun h e => Header.add h e.1 e.2) b.header ∧
+    (late a b).code = (match a.lateStatus with | some c => c | none => b.code) := by
+  unfold late
+  cases a.lateStatus <;> simp [BW.writeHeader]
+
 theorem fresh_spec (cfg : Cfg) (a : Attempt) :
     (∃ acc, (fresh cfg a).buffer.Inv acc) ∧
     ((fresh cfg a).writeError = true ↔ overLimit cfg a) ∧
@@ -15,8 +30,10 @@ theorem fresh_spec (cfg : Cfg) (a : Attempt) :
     ((fresh cfg a).hijacked = true ↔ hijackEff cfg a) ∧
     (fresh cfg a).code = capCode a ∧
     (fresh cfg a).written = decide (a.writes.flatten ≠ []) ∧
-    (fresh cfg a).buffer.memBytes = (if cfg.memResp == 0 then MultibufDefaultMemBytes else cfg.memResp) := by
-  let bw1 : BW := { buffer := newWriterOnce cfg.maxResp cfg.memResp, header := respHeaderOf a }
+    (fresh cfg a).buffer.memBytes = (if cfg.memResp == 0 then MultibufDefaultMemBytes else cfg.memResp) ∧
+    ((fresh cfg a).panicked = true ↔ panics a) := by
+  let bw1 : BW := { buffer := newWriterOnce cfg.maxResp cfg.memResp,
+                    header := a.respHdr.foldl (fun h e => Header.add h e.1 e.2) [] }
   let bw2 : BW := match a.status with
     | some c => bw1.writeHeader c
     | none => bw1
@@ -26,7 +43,7 @@ theorem fresh_spec (cfg : Cfg) (a : Attempt) :
   obtain ⟨i1, i2, i3, i4, i5, i6, i7, i8, i9⟩ := BW.writes_spec a.writes bw2 [] hinv
   have hcode2 : bw2.code = a.status.getD 0 := by
     simp only [bw2]; cases a.status <;> rfl
-  have hhdr2 : bw2.header = respHeaderOf a := by
+  have hhdr2 : bw2.header = a.respHdr.foldl (fun h e => Header.add h e.1 e.2) [] := by
     simp only [bw2]; cases a.status <;> rfl
   have herr2 : bw2.writeError = false := by
     simp only [bw2]; cases a.status <;> rfl
@@ -34,33 +51,57 @@ theorem fresh_spec (cfg : Cfg) (a : Attempt) :
     simp only [bw2]; cases a.status <;> rfl
   have hwr2 : bw2.written = false := by
     simp only [bw2]; cases a.status <;> rfl
-  have hfold : fresh cfg a = if a.hijack && cfg.canHijack then { a.writes.foldl BW.write bw2 with hijacked := true }
-      else a.writes.foldl BW.write bw2 := by
-    rfl
+  have hpan2 : bw2.panicked = false := by
+    simp only [bw2]; cases a.status <;> rfl
+  have hpan3 : (a.writes.foldl BW.write bw2).panicked = false := by
+    have : ∀ (ws : List Bytes) (b : BW), (ws.foldl BW.write b).panicked = b.panicked := by
+      intro ws; induction ws with
+      | nil => intro b; rfl
+      | cons p ws ih => intro b; rw [List.foldl_cons, ih]; rfl
+    rw [this, hpan2]
+  obtain ⟨l1, l2, l3, l4, l5, l6, l7⟩ := late_spec a (a.writes.foldl BW.write bw2)
+  generalize hb5 : late a (a.writes.foldl BW.write bw2) = b5 at *
+  have hfold : fresh cfg a = if a.panic then { b5 with panicked := true }
+      else if a.hijack && cfg.canHijack then { b5 with hijacked := true } else b5 := by
+    rw [← hb5]; rfl
   have hmax : bw2.buffer.maxBytes = cfg.maxResp := by rw [hb2]; rfl
   have hmem : bw2.buffer.memBytes = (if cfg.memResp == 0 then MultibufDefaultMemBytes else cfg.memResp) := by rw [hb2]; rfl
-  have key : ∀ (P : BW → Prop), (P (a.writes.foldl BW.write bw2)) →
-      (P { a.writes.foldl BW.write bw2 with hijacked := true }) → P (fresh cfg a) := by
-    intro P p1 p2; rw [hfold]; split <;> assumption
-  refine ⟨?_, ?_, ?_, ?_, ?_, ?_, ?_, ?_⟩
-  · exact key (fun b => ∃ acc, b.buffer.Inv acc) i1 i1
-  · have : (a.writes.foldl BW.write bw2).writeError = true ↔ overLimit cfg a := by
-      rw [i2, herr2, hmax]; simp [overLimit]
-    exact key (fun b => b.writeError = true ↔ overLimit cfg a) this this
-  · have : (a.writes.foldl BW.write bw2).writeError = false → (a.writes.foldl BW.write bw2).buffer.Inv a.writes.flatten := by
-      intro h; simpa using i3 h
-    exact key (fun b => b.writeError = false → b.buffer.Inv a.writes.flatten) this this
-  · exact key (fun b => b.header = respHeaderOf a) (by rw [i4, hhdr2]) (by simp only; rw [i4, hhdr2])
+  have key : ∀ (P : BW → Prop), P b5 → P { b5 with panicked := true } → P { b5 with hijacked := true } → P (fresh cfg a) := by
+    intro P p1 p2 p3; rw [hfold]; split
+    · exact p2
+    · split <;> assumption
+  have hcode5 : b5.code = capCode a := by
+    rw [l7, i6, hcode2]; unfold capCode; cases a.lateStatus <;> rfl
+  have hhdr5 : b5.header = respHeaderOf a := by rw [l6, i4, hhdr2]; rfl
+  refine ⟨?_, ?_, ?_, ?_, ?_, ?_, ?_, ?_, ?_⟩
+  · have : ∃ acc, b5.buffer.Inv acc := by rw [l1]; exact i1
+    exact key (fun b => ∃ acc, b.buffer.Inv acc) this this this
+  · have : b5.writeError = true ↔ overLimit cfg a := by
+      rw [l2, i2, herr2, hmax]; simp [overLimit]
+    exact key (fun b => b.writeError = true ↔ overLimit cfg a) this this this
+  · have : b5.writeError = false → b5.buffer.Inv a.writes.flatten := by
+      rw [l2, l1]; intro h; simpa using i3 h
+    exact key (fun b => b.writeError = false → b.buffer.Inv a.writes.flatten) this this this
+  · exact key (fun b => b.header = respHeaderOf a) hhdr5 hhdr5 hhdr5
   · rw [hfold]; unfold hijackEff
-    split
-    · rename_i h; simp at h; simp [h]
-    · rename_i h; rw [i5, hhij2]; simp at h; simp; exact h
-  · have : (a.writes.foldl BW.write bw2).code = capCode a := by rw [i6, hcode2]; rfl
-    exact key (fun b => b.code = capCode a) this this
-  · have : (a.writes.foldl BW.write bw2).written = decide (a.writes.flatten ≠ []) := by rw [i7, hwr2]; simp
-    exact key (fun b => b.written = decide (a.writes.flatten ≠ [])) this this
-  · have : (a.writes.foldl BW.write bw2).buffer.memBytes = (if cfg.memResp == 0 then MultibufDefaultMemBytes else cfg.memResp) := by rw [i9, hmem]
-    exact key (fun b => b.buffer.memBytes = (if cfg.memResp == 0 then MultibufDefaultMemBytes else cfg.memResp)) this this
+    have h5 : b5.hijacked = false := by rw [l4, i5, hhij2]
+    cases hp : a.panic
+    · simp only [Bool.false_eq_true, if_false, true_and]
+      split
+      · rename_i h; simp at h; simp [h]
+      · rename_i h; rw [h5]; simp at h; simp; exact h
+    · simp [h5]
+  · exact key (fun b => b.code = capCode a) hcode5 hcode5 hcode5
+  · have : b5.written = decide (a.writes.flatten ≠ []) := by rw [l3, i7, hwr2]; simp
+    exact key (fun b => b.written = decide (a.writes.flatten ≠ [])) this this this
+  · have : b5.buffer.memBytes = (if cfg.memResp == 0 then MultibufDefaultMemBytes else cfg.memResp) := by rw [l1, i9, hmem]
+    exact key (fun b => b.buffer.memBytes = (if cfg.memResp == 0 then MultibufDefaultMemBytes else cfg.memResp)) this this this
+  · rw [hfold]; unfold panics
+    have h5 : b5.panicked = false := by rw [l5, hpan3]
+    cases hp : a.panic
+    · simp only [Bool.false_eq_true, if_false]
+      split <;> simp [h5]
+    · simp
 
 /-- the deferred closes of one attempt leave its temp file (if any) removed -/
 def RecOK (bw : BW) (rdr : Option Rdr) : Prop :=
@@ -132,49 +173,62 @@ theorem expectBody_iff (bw : BW) (a : Attempt) (m : String) (hc : bw.code = capC
 /-- the body delivered for a final attempt -/
 def finalBody (method : String) (a : Attempt) : Bytes := if bodyAllowed method a then a.writes.flatten else []
 
-theorem settle_hij (cfg : Cfg) (req : Req) (k : Nat) (b : BW) (m : String) (h : b.hijacked = true) :
-    settle cfg req k b m = ⟨b, none, .hijacked⟩ := by
+theorem settle_pan (cfg : Cfg) (req : Req) (k : Nat) (b : BW) (m : String) (h : b.panicked = true) :
+    settle cfg req k b m = ⟨b, none, .panicked⟩ := by
   unfold settle; rw [if_pos h]
 
-theorem settle_err (cfg : Cfg) (req : Req) (k : Nat) (b : BW) (m : String) (h : ¬ b.hijacked = true)
-    (h2 : b.writeError = true) : settle cfg req k b m = ⟨b, none, .final (sizeErrHandler {} .other)⟩ := by
-  unfold settle; rw [if_neg h, if_pos h2]
+theorem settle_hij (cfg : Cfg) (req : Req) (k : Nat) (b : BW) (m : String) (h0 : ¬ b.panicked = true) (h : b.hijacked = true) :
+    settle cfg req k b m = ⟨b, none, .hijacked⟩ := by
+  unfold settle; rw [if_neg h0, if_pos h]
 
-theorem settle_body (cfg : Cfg) (req : Req) (k : Nat) (b : BW) (m : String) (h : ¬ b.hijacked = true)
+theorem settle_err (cfg : Cfg) (req : Req) (k : Nat) (b : BW) (m : String) (h0 : ¬ b.panicked = true) (h : ¬ b.hijacked = true)
+    (h2 : b.writeError = true) : settle cfg req k b m = ⟨b, none, .final (sizeErrHandler {} .other)⟩ := by
+  unfold settle; rw [if_neg h0, if_neg h, if_pos h2]
+
+theorem settle_body (cfg : Cfg) (req : Req) (k : Nat) (b : BW) (m : String) (h0 : ¬ b.panicked = true) (h : ¬ b.hijacked = true)
     (h2 : ¬ b.writeError = true) (h3 : (b.expectBody m && b.written) = true) (w : Writer) (r : Rdr)
     (h4 : b.buffer.reader = some (w, r)) :
     settle cfg req k b m = if shouldRetry cfg req k b.code then ⟨{ b with buffer := w }, some r, .retry⟩
       else ⟨{ b with buffer := w }, some r, .final (deliver { b with buffer := w } (some r))⟩ := by
-  unfold settle; rw [if_neg h, if_neg h2, if_pos h3, h4]
+  unfold settle; rw [if_neg h0, if_neg h, if_neg h2, if_pos h3, h4]
 
-theorem settle_nobody (cfg : Cfg) (req : Req) (k : Nat) (b : BW) (m : String) (h : ¬ b.hijacked = true)
+theorem settle_nobody (cfg : Cfg) (req : Req) (k : Nat) (b : BW) (m : String) (h0 : ¬ b.panicked = true) (h : ¬ b.hijacked = true)
     (h2 : ¬ b.writeError = true) (h3 : ¬ (b.expectBody m && b.written) = true) :
     settle cfg req k b m = if shouldRetry cfg req k b.code then ⟨b, none, .retry⟩
       else ⟨b, none, .final (deliver b none)⟩ := by
-  unfold settle; rw [if_neg h, if_neg h2, if_neg h3]
+  unfold settle; rw [if_neg h0, if_neg h, if_neg h2, if_neg h3]
 
 theorem settle_spec (cfg : Cfg) (req : Req) (k : Nat) (a : Attempt) :
     RecOK (settle cfg req k (fresh cfg a) req.method).bw (settle cfg req k (fresh cfg a) req.method).rdr ∧
-    (hijackEff cfg a → (settle cfg req k (fresh cfg a) req.method).outcome = .hijacked) ∧
-    (¬ hijackEff cfg a → overLimit cfg a →
+    (panics a → (settle cfg req k (fresh cfg a) req.method).outcome = .panicked) ∧
+    (¬ panics a → hijackEff cfg a → (settle cfg req k (fresh cfg a) req.method).outcome = .hijacked) ∧
+    (¬ panics a → ¬ hijackEff cfg a → overLimit cfg a →
       (settle cfg req k (fresh cfg a) req.method).outcome = .final (sizeErrHandler {} .other)) ∧
-    (¬ hijackEff cfg a → ¬ overLimit cfg a → shouldRetry cfg req k (capCode a) = true →
+    (¬ panics a → ¬ hijackEff cfg a → ¬ overLimit cfg a → shouldRetry cfg req k (capCode a) = true →
       (settle cfg req k (fresh cfg a) req.method).outcome = .retry) ∧
-    (¬ hijackEff cfg a → ¬ overLimit cfg a → shouldRetry cfg req k (capCode a) = false →
+    (¬ panics a → ¬ hijackEff cfg a → ¬ overLimit cfg a → shouldRetry cfg req k (capCode a) = false →
       ∃ up, (settle cfg req k (fresh cfg a) req.method).outcome = .final up ∧ up.status = some (finalStatus a) ∧
         up.sentHeader = Header.copyInto [] (respHeaderOf a) ∧ up.body = finalBody req.method a) := by
-  obtain ⟨⟨acc, hacc⟩, herr, hdata, hhdr, hhij, hcode, hwr, _⟩ := fresh_spec cfg a
+  obtain ⟨⟨acc, hacc⟩, herr, hdata, hhdr, hhij, hcode, hwr, _, hpan⟩ := fresh_spec cfg a
   have hexp := expectBody_iff (fresh cfg a) a req.method hcode hhdr
   generalize fresh cfg a = b at *
+  by_cases c0 : b.panicked = true
+  · have := hpan.mp c0
+    rw [settle_pan _ _ _ _ _ c0]
+    exact ⟨recOK_none b acc hacc, fun _ => rfl, fun h => absurd this h, fun h => absurd this h, fun h => absurd this h,
+      fun h => absurd this h⟩
+  have np : ¬ panics a := fun h => c0 (hpan.mpr h)
   by_cases c1 : b.hijacked = true
   · have := hhij.mp c1
-    rw [settle_hij _ _ _ _ _ c1]
-    exact ⟨recOK_none b acc hacc, fun _ => rfl, fun h => absurd this h, fun h => absurd this h, fun h => absurd this h⟩
+    rw [settle_hij _ _ _ _ _ c0 c1]
+    exact ⟨recOK_none b acc hacc, fun h => absurd h np, fun _ _ => rfl, fun _ h => absurd this h, fun _ h => absurd this h,
+      fun _ h => absurd this h⟩
   · have nh : ¬ hijackEff cfg a := fun h => c1 (hhij.mpr h)
     by_cases c2 : b.writeError = true
     · have ho := herr.mp c2
-      rw [settle_err _ _ _ _ _ c1 c2]
-      exact ⟨recOK_none b acc hacc, fun h => absurd h nh, fun _ _ => rfl, fun _ h => absurd ho h, fun _ h => absurd ho h⟩
+      rw [settle_err _ _ _ _ _ c0 c1 c2]
+      exact ⟨recOK_none b acc hacc, fun h => absurd h np, fun _ h => absurd h nh, fun _ _ _ => rfl, fun _ _ h => absurd ho h,
+        fun _ _ h => absurd ho h⟩
     · have no : ¬ overLimit cfg a := fun h => c2 (herr.mpr h)
       have c2' : b.writeError = false := by simpa using c2
       have hinv := hdata c2'
@@ -187,12 +241,14 @@ theorem settle_spec (cfg : Cfg) (req : Req) (k : Nat) (a : Attempt) :
         have hst : b.buffer.state ≠ .init := fun h => hne (hinv.initEmpty h)
         obtain ⟨w', r, hr, hrd, hrec⟩ := (reader_spec b.buffer _ hinv).2 hst
         have hba : bodyAllowed req.method a := hexp.mp c3'.1
-        rw [settle_body _ _ _ _ _ c1 c2 c3 w' r hr, hsr']
+        rw [settle_body _ _ _ _ _ c0 c1 c2 c3 w' r hr, hsr']
         by_cases hsr : shouldRetry cfg req k (capCode a) = true
         · rw [if_pos hsr]
-          exact ⟨hrec b, fun h => absurd h nh, fun _ h => absurd h no, fun _ _ _ => rfl, fun _ _ h => by rw [hsr] at h; cases h⟩
+          exact ⟨hrec b, fun h => absurd h np, fun _ h => absurd h nh, fun _ _ h => absurd h no, fun _ _ _ _ => rfl,
+            fun _ _ _ h => by rw [hsr] at h; cases h⟩
         · rw [if_neg hsr]
-          refine ⟨hrec b, fun h => absurd h nh, fun _ h => absurd h no, fun _ _ h => absurd h hsr, fun _ _ _ => ⟨_, rfl, ?_, ?_, ?_⟩⟩
+          refine ⟨hrec b, fun h => absurd h np, fun _ h => absurd h nh, fun _ _ h => absurd h no, fun _ _ _ h => absurd h hsr,
+            fun _ _ _ _ => ⟨_, rfl, ?_, ?_, ?_⟩⟩
           · rw [(deliver_spec _ _).1]; exact congrArg some hfs
           · rw [(deliver_spec _ _).2.1]; exact congrArg _ hhdr
           · rw [(deliver_spec _ _).2.2]; simp only [hrd, finalBody, hba, if_true]
@@ -206,12 +262,14 @@ theorem settle_spec (cfg : Cfg) (req : Req) (k : Nat) (a : Attempt) :
               · exfalso; apply c3; rw [hexp.mpr hba, hw]; rfl
             rw [hwr] at this; simpa using this
           · rfl
-        rw [settle_nobody _ _ _ _ _ c1 c2 c3, hsr']
+        rw [settle_nobody _ _ _ _ _ c0 c1 c2 c3, hsr']
         by_cases hsr : shouldRetry cfg req k (capCode a) = true
         · rw [if_pos hsr]
-          exact ⟨recOK_none b acc hacc, fun h => absurd h nh, fun _ h => absurd h no, fun _ _ _ => rfl, fun _ _ h => by rw [hsr] at h; cases h⟩
+          exact ⟨recOK_none b acc hacc, fun h => absurd h np, fun _ h => absurd h nh, fun _ _ h => absurd h no,
+            fun _ _ _ _ => rfl, fun _ _ _ h => by rw [hsr] at h; cases h⟩
         · rw [if_neg hsr]
-          refine ⟨recOK_none b acc hacc, fun h => absurd h nh, fun _ h => absurd h no, fun _ _ h => absurd h hsr, fun _ _ _ => ⟨_, rfl, ?_, ?_, ?_⟩⟩
+          refine ⟨recOK_none b acc hacc, fun h => absurd h np, fun _ h => absurd h nh, fun _ _ h => absurd h no,
+            fun _ _ _ h => absurd h hsr, fun _ _ _ _ => ⟨_, rfl, ?_, ?_, ?_⟩⟩
           · rw [(deliver_spec _ _).1]; exact congrArg some hfs
           · rw [(deliver_spec _ _).2.1]; exact congrArg _ hhdr
           · rw [(deliver_spec _ _).2.2, hbody]
